@@ -45,7 +45,7 @@ func (self *ListRange) CheckListPreConstraints(r *ListRequest) (bool, error) {
 	if r.IsNavigation() {
 		return true, nil
 	}
-	if self.Selector.PathMatches(r.Base, r.Selection.Path) {
+	if self.Selector.PathMatchesExactly(r.Base, r.Selection.Path) {
 		if r.First {
 			r.SetStartRow(self.StartRow)
 			r.SetRow(self.StartRow)
